@@ -214,7 +214,8 @@ fn run_balanced(b: &Balanced, o: &mut Outcome) -> Result<(), Failure> {
                 drop(l);
                 eps.push(tonic::transport::Endpoint::from_shared(format!("http://127.0.0.1:{port}")).map_err(|e| format!("{e:?}"))?);
             }
-            let ch = tonic::transport::Channel::balance_list(eps.into_iter());
+            // any iterator will do, also one that cannot tell its length (size_hint (0, None))
+            let ch = if b2.endpoints % 2 == 1 { tonic::transport::Channel::balance_list(eps.into_iter().flat_map(std::iter::once)) } else { tonic::transport::Channel::balance_list(eps.into_iter()) };
             let mut client = vt::raw_client::RawClient::new(ch);
             let mut out = vec![];
             for _ in 0..b2.calls.max(1) {
